@@ -272,9 +272,12 @@ func (c *Conn) OpenUpstream(ctx context.Context, sessionID string, opts ...Upstr
 
 	var resp *message.UpstreamOpenResponse
 	err := c.send(ctx, func(ctx context.Context) error {
+		// the lock guards the pointer only: holding it for the whole exchange would make every
+		// other call, Close included, wait behind a broker that does not answer
 		c.wireConnMu.Lock()
-		defer c.wireConnMu.Unlock()
-		r, err := c.wireConn.SendUpstreamOpenRequest(ctx, &message.UpstreamOpenRequest{
+		wireConn := c.wireConn
+		c.wireConnMu.Unlock()
+		r, err := wireConn.SendUpstreamOpenRequest(ctx, &message.UpstreamOpenRequest{
 			SessionID:      upconf.SessionID,
 			AckInterval:    *upconf.AckInterval,
 			ExpiryInterval: upconf.ExpiryInterval,
@@ -571,8 +574,9 @@ func (c *Conn) SendMetadata(ctx context.Context, meta message.SendableMetadata, 
 			},
 		}
 		c.wireConnMu.Lock()
-		defer c.wireConnMu.Unlock()
-		resp, err := c.wireConn.SendUpstreamMetadata(ctx, upmeta)
+		wireConn := c.wireConn
+		c.wireConnMu.Unlock()
+		resp, err := wireConn.SendUpstreamMetadata(ctx, upmeta)
 		if err != nil {
 			return err
 		}
